@@ -502,8 +502,34 @@ class Walker:
                 self.cur_fn = saved
                 self.last_call_facts = g
                 return
+        if k == "VarDecl" and self.ci:
+            self.vla_bound(n, locks, facts, in_assert)
         for c in kids(n):
             self.visit(c, locks, facts, in_assert)
+
+    CONST_STD_METHODS = ("size", "length", "empty", "c_str", "data", "capacity", "readableBytes", "writableBytes")
+
+    def vla_bound(self, var, locks, facts, in_assert):
+        """clang's JSON dump does not print the size expression of a variable-length array (it lives in the type):
+        `char buf[name_.size() + 32]`.  Members named there are taken from the type's spelling: a read when the
+        member is const, is used as a plain value, or through one of a few const methods; anything else is outside
+        the subset."""
+        m = re.search(r"\[([^\]]*[A-Za-z_][^\]]*)\]", qt(var))
+        if not m:
+            return
+        bound = m.group(1)
+        for f in self.ci.fields.values():
+            for t in re.finditer(r"(?:(?<![\w.>])|(?<=this->))%s\b" % re.escape(f["name"]), bound):
+                rest = bound[t.end():].lstrip()
+                before = bound[:t.start()].rstrip()
+                meth = re.match(r"\.(\w+)\(", rest)
+                if is_const_type(f["type"]) or (meth and meth.group(1) in self.CONST_STD_METHODS) or \
+                        (not rest.startswith((".", "->", "++", "--", "[")) and not re.match(r"[-+*/%&|^]?=(?!=)", rest)
+                         and not before.endswith(("++", "--", "&"))):
+                    self.row(var, f["name"], "ard" if f["tc"] == "atomic" else "rd", "", locks, facts, in_assert)
+                else:
+                    raise ExtractError("%s:%s member `%s` in the bound of a variable-length array `%s`: use outside the "
+                                       "extractor's subset" % (self.cur_fn.get("name"), var.get("_line"), f["name"], qt(var)))
 
     # ---- classification of one member access
     def up(self, n):
@@ -781,10 +807,10 @@ def collect():
     return res, (glob, lrows, lunreached)
 
 
-def generate():
+def tables():
+    """the raw tables as plain data (what `generate` renders as Lean text and what the C08 plug-in re-checks
+    in Python): {"fields": [...], "roots": [...], "confinedOps": [...], "rows": [...]}, all dicts"""
     res, (glob, lrows, lunreached) = collect()
-    out = [HEADER % "the classes of the C08 cross-thread / loop-confined lists, see vlib/gen/race.py",
-           "import MuduoVerif.Model.RaceBase\n", "namespace MuduoVerif.Gen.Race", "open MuduoVerif.Race\n"]
     fields, rows, roots, confined = [], [], [], []
     for ci, root_rows, conf, unreached in res:
         for f in ci.fields.values():
@@ -815,11 +841,39 @@ def generate():
         if not _check_line(cache, r[4], r[5], r[6]):
             raise ExtractError("line bookkeeping: %s:%d does not mention `%s` (function %s)" % (r[4], r[5], r[6], r[3]))
     rows.sort(key=lambda r: (r[0], r[1], r[4], r[5], r[3], r[6], r[7], r[8], r[9], r[10]))
+    return {
+        "fields": [{"cls": c, "name": f["name"], "ty": f["type"], "tc": ("konst" if f["tc"] == "const" else f["tc"]),
+                    "guardedBy": f["guard"], "writers": sorted(f["writers"])} for c, f in fields],
+        "roots": [{"cls": c, "fn": l, "qname": c + "::" + l.lstrip("?").split("(")[0], "kind": k} for c, l, k in roots],
+        "confinedOps": [{"cls": c, "fn": l, "check": w, "line": ln} for c, l, w, ln in confined],
+        "rows": [{"cls": r[0], "root": r[1], "rootKind": r[2], "fn": r[3], "file": r[4], "line": r[5], "field": r[6],
+                  "kind": r[7], "callee": r[8], "locks": list(r[9]), "inLoop": list(r[10]), "inAssert": bool(r[11])}
+                 for r in rows],
+    }
+
+
+TABLE_JSON = os.path.join(BUILD, "race_table.json")
+
+
+def generate():
+    t = tables()
+    os.makedirs(BUILD, exist_ok=True)
+    with open(TABLE_JSON + ".tmp", "w") as f:
+        json.dump(t, f, indent=0, sort_keys=True)
+    os.replace(TABLE_JSON + ".tmp", TABLE_JSON)
+    out = [HEADER % "the classes of the C08 cross-thread / loop-confined lists, see vlib/gen/race.py",
+           "import MuduoVerif.Model.RaceBase\n", "namespace MuduoVerif.Gen.Race", "open MuduoVerif.Race\n"]
+    fields = [(f["cls"], {"name": f["name"], "type": f["ty"], "tc": f["tc"], "guard": f["guardedBy"], "writers": f["writers"]})
+              for f in t["fields"]]
+    roots = [(r["cls"], r["fn"], r["kind"]) for r in t["roots"]]
+    confined = [(o["cls"], o["fn"], o["check"], o["line"]) for o in t["confinedOps"]]
+    rows = [(r["cls"], r["root"], r["rootKind"], r["fn"], r["file"], r["line"], r["field"], r["kind"], r["callee"],
+             tuple(r["locks"]), tuple(r["inLoop"]), r["inAssert"]) for r in t["rows"]]
     out.append("/-- members of the analysed classes: declared type, type class, `GUARDED_BY` annotation, and every\n"
                "method other than constructors/destructors that writes the member -/")
     out.append("def fields : List Field := [")
     out.append(",\n".join("  { cls := %s, name := %s, ty := %s, tc := .%s, guardedBy := %s, writers := %s }" % (
-        lean_str(c), lean_str(f["name"]), lean_str(f["type"]), ("konst" if f["tc"] == "const" else f["tc"]), lean_str(f["guard"]),
+        lean_str(c), lean_str(f["name"]), lean_str(f["type"]), f["tc"], lean_str(f["guard"]),
         lean_list(lean_str(x) for x in sorted(f["writers"]))) for c, f in fields))
     out.append("]\n")
     out.append("/-- the analysed root functions; `other` = a method that touches members but is not reached from any\n"
